@@ -12,10 +12,10 @@ ATTS_QUICK = [0, 1, 62, 63, 64, 65, 66, 127, 128, 252, 253, 254, 300]
 def configs(tier):
     if tier == "quick":
         return [{"name": "sb4096", "sb": 4096, "lens": data_lens, "atts": ATTS_QUICK, "maxfault": 0,
-                 "mixes": [0, 1, 2]}]
+                 "mixes": [0, 1, 2, 4]}]
     return [
         {"name": "sb4096-all", "sb": 4096, "lens": data_lens, "atts": list(range(0, 301)), "maxfault": 0,
-         "mixes": [0, 1, 2, 3]},
+         "mixes": [0, 1, 2, 3, 4]},
         {"name": "sys", "sb": None, "lens": data_lens, "atts": ATTS_QUICK, "maxfault": 0, "mixes": [0, 1, 2]},
         {"name": "sb4096-faults", "sb": 4096, "lens": data_lens, "atts": [62, 63, 64, 65], "maxfault": 3,
          "mixes": [2]},
